@@ -11,11 +11,11 @@ func prop(id, title string, quick, thorough []string, decided, notDecided string
 
 func init() {
 	prop("C01", "Token flow conforms to BPMN semantics",
-		[]string{"R1", "R2", "R3", "R3d", "R3e", "R5", "R6", "R7", "R8", "R9", "R10", "R13", "R36", "R38", "R39", "R51", "R57"}, nil,
+		[]string{"R1", "R2", "R3", "R3d", "R3e", "R5", "R6", "R7", "R8", "R9", "R10", "R13", "R36", "R38", "R39", "R51", "R57", "R52", "R53", "R54", "R59"}, nil,
 		"Structural necessary conditions of token accounting, decided on every path of the analysed functions: every token goroutine is counted before it starts and uncounted exactly once on every exit (R1); every request taken from a node mailbox is answered, parked, delegated or reported on every path and never answered twice, a releasing join hands each parked token exactly one action and empties its parked list / counter (R2,R3,R3d); every message type posted has a handler (R5) and every action type an interpreter, enum switches are exhaustive (R6); forked flows start only after the FlowTrace that announces them, a terminal trace is the last trace, leave/move/visit are ordered, every token exit is announced (R7-R10); the element->node mapping is frozen before use (R13); process and sub-process build and register the same 18 node kinds with checked constructor errors (R36).",
 		"that conditions evaluate to the right truth value, that the number of requests equals what the token game prescribes for a given graph and data, order consistency for a given graph, final variable values (these quantify over process graphs and inputs).")
 	prop("C02", "Completion is reported iff all start events fired and no token remains",
-		[]string{"R1", "R11", "R12", "R14[WaitUntilComplete]"}, nil,
+		[]string{"R1", "R11", "R12", "R14[WaitUntilComplete]", "R58", "R60"}, nil,
 		"Decides: the wait group 'no token remains' is read from is paired (R1); CeaseFlowTrace has one send site per monitor, only in the branch that saw the flow wait group drained and after the loop that counted all start events, the completion lock is taken synchronously before the monitor goroutine exists and released on all exits, and WaitUntilComplete observes that lock (R12); the monitor's subscription must precede the start trigger (R11); WaitUntilComplete and its helper contain no unguarded blocking operation, i.e. a waiter whose context expired cannot leave a helper behind that owns the completion lock (R14).",
 		"bounded latency of completion, behaviour with several start events beyond the single send site, 'exactly once after every other flow trace' as a history fact.")
 	prop("C03", "Parallel gateway",
@@ -27,7 +27,7 @@ func init() {
 		"Decides: every request and every probe report is answered, parked, re-queued or reported (R2,R5); probing state is confined to the gateway goroutine (R24); both registered expression engines are usable from the token goroutine without a nil-map write (R26a); the list of candidate flows is an order-preserving filter of the gateway's outgoing flows and is not reordered afterwards (R39); a decision handed to a token is a fresh slice that later decisions cannot overwrite (R38).",
 		"'first true wins' as a value fact, truth values of conditions, position of the default.")
 	prop("C05", "Inclusive gateway",
-		[]string{"R2", "R3", "R3e", "R4", "R10", "R16", "R19", "R22", "R24", "R47", "R48", "R52", "R53", "R54"}, nil,
+		[]string{"R2", "R3", "R3e", "R4", "R10", "R16", "R19", "R22", "R24", "R47", "R48", "R52", "R53", "R54", "R59"}, nil,
 		"Decides: requests are never dropped (R2); every way a token can end is visible in the trace stream the join's tracker reads (R10); the tracker's subscription and goroutine have a lifecycle (R19,R16); tracker map accesses follow its lock protocol (R22); gateway state is confined (R24); the join releases each parked token exactly once and re-arms (R3); reply capacity (R4).",
 		"that `awaiting` is the right set at the right time (it is read from an asynchronously maintained picture), early or late firing under a given schedule.")
 	prop("C06", "Event-based gateway",
@@ -35,7 +35,7 @@ func init() {
 		"Decides: the winner is chosen by one atomic compare-and-swap on a variable that is accessed only atomically (R23); the notification of losers cannot block the winner and is not sent on a closed channel (R0,R21,R20); the termination-channel map is not shared unsynchronised between the winner's and the losers' goroutines (R25); every loser's token honours its termination channel in the same select as its pending action (R16).",
 		"'the instance goes on to complete', outcomes of particular delivery interleavings.")
 	prop("C07", "Cancellation stops everything and leaks nothing",
-		[]string{"R0", "R1", "R4", "R12", "R14", "R16", "R17", "R18", "R19", "R20", "R21", "R40"}, nil,
+		[]string{"R0", "R1", "R4", "R12", "R14", "R16", "R17", "R18", "R19", "R20", "R21", "R40", "R58", "R60", "R56"}, nil,
 		"Decides, for every goroutine the engine can start and every channel operation in the engine packages: each operation falls into a discharged class — select-guarded by a done-source or default, reply with capacity, mailbox post with a running owner, tracer protocol, closed-only/timer receive, buffered single-use (R0,R4,R14); every parking loop leaves through a done-source case and no done-source case spins (R16); what a goroutine acquired it releases on all exits: wait-group count (R1), sender handle (R17), subscription (R19), completion lock (R12); every goroutine that sends traces holds a sender handle of the tracer it sends on (R18); channels are closed once and never sent to afterwards (R20,R21).",
 		"'promptly'; that a task request racing the cancel carries a cancelled context beyond the structural binding; liveness of third-party code.")
 	prop("C08", "Task requests",
@@ -47,15 +47,15 @@ func init() {
 		"Decides: single broadcaster, sequential, non-dropping delivery to every subscriber, subscriber list confined to it, one select serving subscribe/unsubscribe/trace/terminate, Unsubscribe drains while requesting, relay forwards sequentially (R37); announce-before-start, terminal-last, leave/visit bracketing in the token goroutine (R7,R8,R9).",
 		"absence of deadlock in general (Subscribe after termination blocks), per-run order facts.")
 	prop("C10", "Boundary events",
-		[]string{"R41", "R23", "R0"}, nil,
+		[]string{"R41", "R23", "R0", "R61", "R62"}, nil,
 		"Decides: Activity.Cancel is called only inside the harness's once-only cancellation; the interrupting transformer is installed iff CancelActivity(); events reach boundary listeners only while the activity is active and `active` is set before the activity is asked and cleared after its answer is relayed (R41,R23); necessary conditions for 'normal flow never after interruption' (state written by the cancellation is read on the relay path) and for 'boundary listeners do not keep the instance from completing' (listener flows do not count on the process wait group or are terminated with the activity) (R41).",
 		"interleavings of event and answer.")
 	prop("C11", "Event delivery",
-		[]string{"R3", "R5", "R14[ConsumeEvent]", "R22", "R41", "R42"}, nil,
+		[]string{"R3", "R5", "R14[ConsumeEvent]", "R22", "R41", "R42", "R62"}, nil,
 		"Decides: delivery cannot block on a node that was never reached (R14); ForwardEvent visits every consumer; the consumer list is copied under the read lock and forwarded outside it; a catch event matches only while activated, releases every parked token exactly once and clears the list (R42,R3,R22); posted message types have handlers (R5).",
 		"matching semantics per event kind, 'dropped without effect on later listeners' as a history fact.")
 	prop("C12", "Embedded sub-process",
-		[]string{"R1", "R2", "R3", "R11", "R36", "R35"}, nil,
+		[]string{"R1", "R2", "R3", "R11", "R36", "R35", "R60"}, nil,
 		"Decides: the completion signal the parent waits for can reach it (trace route, R35); the parent is resumed only after that signal and once (R2,R3); the inner monitor and the forwarding subscription precede the inner start (R11); the sub-process supports exactly the node kinds of a process (R36); inner tokens are counted (R1).",
 		"equivalence with the inlined content, re-entry in a loop.")
 	prop("C13", "Timers",
@@ -75,11 +75,11 @@ func init() {
 		"Decides: reflect accessor/kind agreement and nil-type discipline in the value layer (R26b,c); ItemType switches are exhaustive (R28); no mutable package-level state in the value/data layer besides a locked registry, and NewOptions allocates a fresh locator (R45).",
 		"round-trip equality of values (formatting, integer ranges).")
 	prop("C17", "No data race, no panic",
-		[]string{"R20", "R21", "R22", "R23", "R24", "R25", "R26", "Rerr"}, nil,
+		[]string{"R20", "R21", "R22", "R23", "R24", "R25", "R26", "Rerr", "R58"}, nil,
 		"Decides: lockset discipline over all mutex-bearing structs (R22), atomic-only consistency (R23), owner-goroutine confinement of node state (R24), closure-shared locals (R25), nil-map / reflect discipline (R26), dropped constructor errors (Rerr, thorough).",
 		"races on memory that has no discipline to infer; 'the outcome is one the sequential semantics allows'.")
 	prop("C18", "Process set",
-		[]string{"R1", "R11", "R14[WaitUntilComplete]", "R20", "R22", "R35", "R46"}, nil,
+		[]string{"R1", "R11", "R14[WaitUntilComplete]", "R20", "R22", "R35", "R46", "R58", "R60"}, nil,
 		"Decides: `done` closed once (R20); watchers subscribed before the process they watch starts (R11); wait-group pairing (R1); exactly one Send(CeaseProcessSetTrace) site followed by return, one instantiation per throw message (R46); WaitUntilComplete has an escape (R14); the catch registry is locked (R22).",
 		"'returns true exactly when all completed' under all interleavings.")
 	prop("C19", "Builder output",
